@@ -324,6 +324,10 @@ pub fn dispatch(line: &str) -> String {
         "<free>" if req["calls"][0]["fn"].as_str().unwrap_or("").ends_with("Network as SerdeAPI>::from_file") => <LinkImplTag as FileEntry>::call(&req),
         "<free>" => run_free(&req),
         "Vec<link_impl::Link>" => run::<Vec<crate::track::Link>>(&req, call_links),
+        "link_impl::Link" => run::<crate::track::Link>(&req, |o, f, _a| match f {
+            "<link_impl::Link as ObjState>::validate" => vres(crate::validate::ObjState::validate(o)),
+            _ => Err(Unsup(format!("no runner entry for {f}"))),
+        }),
         "Vec<Elev>" => run::<Vec<crate::track::Elev>>(&req, call_elevs),
         "Vec<Heading>" => run::<Vec<crate::track::Heading>>(&req, call_headings),
         "Vec<CatPowerLimit>" => run::<Vec<crate::track::CatPowerLimit>>(&req, call_cats),
